@@ -238,6 +238,7 @@ func RunDriver(p *Property, tier string, seed int64) int {
 
 	total := WorkerResult{Counters: map[string]int64{}}
 	nt := map[uint64]struct{}{}
+	ntSampled := false
 	var violations []Violation
 	violFlavour := map[int]string{}
 	var inconclusive []string
@@ -353,7 +354,19 @@ func RunDriver(p *Property, tier string, seed int64) int {
 				total.ExtraNT += oc.res.ExtraNT
 				total.CasesRun += oc.res.CasesRun
 				for _, h := range oc.res.NTHashes {
+					if ntSampled && h%16 != 0 {
+						continue
+					}
 					nt[h] = struct{}{}
+				}
+				if !ntSampled && len(nt) > 8000000 {
+					// too many to hold: keep a 1/16 sample by hash value; its size (unscaled) is a lower bound of the distinct count
+					ntSampled = true
+					for h := range nt {
+						if h%16 != 0 {
+							delete(nt, h)
+						}
+					}
 				}
 				for k, v := range oc.res.Counters {
 					if strings.HasPrefix(k, "max:") {
@@ -471,6 +484,9 @@ func RunDriver(p *Property, tier string, seed int64) int {
 		"stages":              stageInfo,
 		"hooks":               hooksState,
 		"counters":            total.Counters,
+	}
+	if ntSampled {
+		cov["distinct_nontrivial_note"] = "lower bound: more than 8 million distinct non-trivial cases were seen, so only those whose 64-bit key hash is divisible by 16 were kept and counted (unscaled)"
 	}
 	if len(total.Samples) == 0 {
 		cov["samples"] = []interface{}{"(no sample recorded)"}
